@@ -1,4 +1,5 @@
 //vp:target x/liquidity/keeper/zz_vp_c04.go
+//vp:props C04 C06
 //vp:load ./app
 //go:build verif
 
